@@ -167,8 +167,9 @@ func VH_C11_Consumers() {
 	x.enterRound(1, 0)
 	all := uint64(1<<uint(n) - 1)
 
-	script := verifrt.Choose("script", 6)
+	script := verifrt.Choose("script", 7)
 	var nilRounds []uint32
+	committedA := false
 	switch script {
 	case 0: // votes grow within the round
 		x.vote(false, 1, 0, "A", 1, 1)
@@ -194,6 +195,27 @@ func VH_C11_Consumers() {
 		x.maybeRead()
 		x.vote(false, 1, 1, "B", 2, 2)
 		x.maybeRead()
+	case 6: // a commit while the consumers may be stalled: header A, a precommit for A, the rest
+		// of the precommits (height 1 is committed, the voting view moves to height 2), then a
+		// prevote at height 2; the state machine stays in (1,0), which is now the committing view
+		verifrt.Assume(verifrt.UFBool("hashok", vkit.Pack([]byte("A")), 1))
+		verifrt.Assume(e.keys[0].Verify([]byte{'P', 0, 1, 0, 'A'}, []byte("psA")))
+		phA := tmconsensus.ProposedHeader{
+			Header: tmconsensus.Header{Hash: []byte("A"), PrevBlockHash: []byte("g"), Height: 1,
+				ValidatorSet: e.vs, NextValidatorSet: e.vs, DataID: []byte("d"),
+				PrevCommitProof: tmconsensus.CommitProof{Proofs: map[string][]gcrypto.SparseSignature{}}},
+			Round: 0, ProposerPubKey: e.keys[0], Signature: []byte("psA"),
+		}
+		verifrt.Assert(e.m.HandleProposedHeader(e.ctx, phA) == tmconsensus.HandleProposedHeaderAccepted, "C11:setup-header-accepted")
+		x.maybeRead()
+		x.vote(true, 1, 0, "A", 1, 1)
+		x.maybeRead()
+		x.vote(true, 1, 0, "A", 6, 2)
+		x.maybeRead()
+		x.vote(false, 2, 0, "B", 1, 3)
+		x.maybeRead()
+		committedA = true
+		verifrt.Reach("commit-delivered-to-possibly-stalled-consumers")
 	case 5: // the state machine runs AHEAD of the mirror: round 0 has collected several view
 		// versions, the state machine's own timer moves it to round 1 (answered from the
 		// next-round view, which has seen nothing yet), then round 0 ends with a nil quorum, the
@@ -235,6 +257,17 @@ func VH_C11_Consumers() {
 	if x.smH == v.Height && x.smR == v.Round {
 		s, ok := x.sm.last[[2]uint64{v.Height, uint64(v.Round)}]
 		verifrt.Assert(ok && s.version == v.Version, "C11:sm:has-latest-view-of-its-round-at-quiescence")
+	}
+	if committedA {
+		var c tmconsensus.VersionedRoundView
+		verifrt.Assert(e.m.CommittingView(e.ctx, &c) == nil && c.Height == 1 && v.Height == 2, "C11:setup-height-1-committed")
+		// both consumers end up with the final committing view of (1,0): all three precommits
+		verifrt.Assert(x.gossip.sawPrecommits(1, 0, "A", all), "C11:gossip:commit-precommits-delivered")
+		verifrt.Assert(x.sm.sawPrecommits(1, 0, "A", all), "C11:sm:commit-precommits-delivered")
+		gc, okc := x.gossip.last[[2]uint64{1, 0}]
+		verifrt.Assert(okc && gc.version == c.Version, "C11:gossip:has-latest-committing-view-at-quiescence")
+		sc, oks := x.sm.last[[2]uint64{1, 0}]
+		verifrt.Assert(oks && sc.version == c.Version, "C11:sm:has-latest-view-of-its-round-at-quiescence")
 	}
 	for _, r := range nilRounds {
 		verifrt.Reach("nil-round-left")
